@@ -18,6 +18,7 @@ from harness.props import c13_doc as DOC
 
 PROPS = [
     ("props/C13_isolation.vo", ["C13_isolation", "C13_default_unaltered", "C13_shared_cache_refuted"], []),
+    ("props/C13_deep.vo", ["C13_isolation_deep", "C13_call_tree_correct"], []),
     ("props/C13_merge.vo", ["C13_merge_total", "C13_merge_covers_all_options", "C13_merge_strategies", "C13_codec_option_uniform"],
      ["K2", "K3", "K13"]),
     ("props/C13_twin.vo", ["C13_twin_partial", "C13_call_dialect_refuted", "C13_union_partial", "C13_union_member_flags_refuted",
@@ -249,6 +250,10 @@ def gen_spec(r) -> dict:
         "G": {"base": "C", "fields": flds("g", 1, 2, 0.0), "config": cfg() if r.random() < 0.25 else None},
         "S": {"base": "P", "fields": flds("s", 1, 2, 0.4), "config": cfg() if r.random() < 0.25 else None},
     }
+    for nm in ("Inner", "Plain"):
+        if r.random() < 0.25:
+            # a nested class that does not take dialects: the call dialect must stop there
+            classes[nm]["config"]["flags"] = [f for f in classes[nm]["config"]["flags"] if f != "dialect"]
     if mixin == "DataClassTOMLMixin":
         for c in classes.values():
             if c.get("config") is not None and c["config"].get("omit_none") is False:
@@ -336,6 +341,8 @@ def gen_history(r, spec: dict, n_ops: int) -> list:
             continue
         c = r.choice(defined + (["Inner"] if r.random() < 0.15 else []))
         d = r.choice([None] + hot + hot + list(range(1, k + 1)))
+        if c == "Inner" and "dialect" not in spec["classes"]["Inner"]["config"]["flags"]:
+            d = None
         if d is not None and d not in hot:
             hot.append(d)
         dirs = ["to", "to", "from"] + (["mto", "mto", "mfrom"] if spec.get("mixin") else [])
@@ -450,13 +457,36 @@ def coq_tag(t, base=None):
     if t is None:
         return "None"
     c, m = t
-    return f"Some ({c}, {'None' if m == (base or 0) else f'Some {m}'})"
+    return f"Some ({c}, {'None' if m in (0, base) else f'Some {m}'})"
+
+
+def coq_tree(t) -> str:
+    return f"(Node {t[0]} [" + "; ".join(coq_tree(k) for k in t[1]) + "])"
 
 
 def coq_op(o):
     if o[0] == "define":
-        return f"Define {o[1]}"
-    return f"Call {o[1]} ({'None' if o[2] is None else f'Some {o[2]}'})"
+        return f"DDefine {o[1]}"
+    return f"DCall {coq_tree(o[1])} ({'None' if o[2] is None else f'Some {o[2]}'})"
+
+
+def value_tree(fam: F.Family, cname: str, vals: dict):
+    """The instance as a tree of class identities (pre-order = the order of the nested calls): derived from
+    the value specification, not from anything the library returns."""
+    kids = []
+    for f, kind in fam.all_fields(cname):
+        v = vals.get(f)
+        if kind == "inner":
+            kids.append(value_tree(fam, "Inner", v or {}))
+        elif kind == "plain":
+            kids.append(value_tree(fam, "Plain", v or {}))
+        elif kind == "byname" and v is not None:
+            kids.append(value_tree(fam, "P", v))
+        elif kind == "selfopt" and v is not None:
+            kids.append(value_tree(fam, cname, v))
+        elif kind == "selflist" and v:
+            kids.extend(value_tree(fam, cname, x) for x in v)
+    return (CID[cname], kids)
 
 
 class HistoryRun:
@@ -483,7 +513,7 @@ class HistoryRun:
             sp["flags"] = ["dialect"]
             for c in sp["classes"].values():
                 if c.get("config") is not None:
-                    c["config"]["flags"] = ["dialect"]
+                    c["config"]["flags"] = [f for f in c["config"]["flags"] if f == "dialect"]
             self.twins["noflags"] = F.Family(sp, None)
         return self.twins["noflags"]
 
@@ -503,9 +533,9 @@ class HistoryRun:
                     if has_kind(fam, op[1], "plain") and not is_deferred(fam, op[1]):
                         # eager class creation compiles the plain nested class on demand (dialect None)
                         self.model[d][0].append(["define", CID["Plain"]])
-                        self.model[d][1].append(None)
+                        self.model[d][1].append([])
                     self.model[d][0].append(["define", CID[op[1]]])
-                    self.model[d][1].append(None)
+                    self.model[d][1].append([])
                 continue
             _, c, direction, di, vals = op
             if vals is None:
@@ -517,16 +547,13 @@ class HistoryRun:
                 # lazy_compilation / postponed: the first call in this (format, direction) compiles the class, and with it
                 # the plain nested class (default method, own cache) -- repeated definitions are idempotent
                 mops.append(["define", CID["Plain"]])
-                mouts.append(None)
+                mouts.append([])
             mp = direction in ("mto", "mfrom")
             if direction in ("to", "mto"):
                 got, gid, raw = F.call_to_dict(fam, c, vals, di, mp)
                 exp, eid, _ = F.call_to_dict(tw, c, vals, None, mp)
-                mops.append(["call", CID[c], di])
-                mouts.append(decode_to(raw))
-                for ncls, tag in nested_to(raw):
-                    mops.append(["call", CID.get(ncls, 4), di])
-                    mouts.append(tag)
+                mops.append(["call", value_tree(fam, c, vals), di])
+                mouts.append([decode_to(raw)] + [tag for _n, tag in nested_to(raw)])
                 ok = (got == exp and gid == eid)
                 observed, expected = [got, gid], [exp, eid]
                 flags = self.spec.get("flags", ["dialect"])
@@ -554,21 +581,13 @@ class HistoryRun:
                     tops, touts = self.model["mto" if mp else "to"]
                     if is_deferred(fam, c) and has_kind(fam, c, "plain"):
                         tops.append(["define", CID["Plain"]])
-                        touts.append(None)
-                    tops.append(["call", CID[c], di])
-                    touts.append(decode_to(doc))
-                    for ncls, tag in nested_to(doc):
-                        tops.append(["call", CID.get(ncls, 4), di])
-                        touts.append(tag)
+                        touts.append([])
+                    tops.append(["call", value_tree(fam, c, vals), di])
+                    touts.append([decode_to(doc)] + [tag for _n, tag in nested_to(doc)])
                 got, res = F.call_from_dict(fam, c, doc, di, mp)
                 exp, _ = F.call_from_dict(tw, c, doc, None, mp)
-                mops.append(["call", CID[c], di])
-                mouts.append(decode_from(res))
-                nres = nested_from(res)
-                ndoc = nested_to(doc)
-                for i, (ncls, _t) in enumerate(ndoc):          # one nested from_dict call per nested document
-                    mops.append(["call", CID.get(ncls, 4), di])
-                    mouts.append(nres[i][1] if i < len(nres) else None)
+                mops.append(["call", value_tree(fam, c, vals), di])
+                mouts.append([decode_from(res)] + [tag for _n, tag in nested_from(res)])
                 ok = got == exp
                 observed, expected = got, exp
             self.stats.append((c, direction, di))
@@ -592,8 +611,12 @@ class HistoryRun:
         for name in ("P", "C", "G", "S", "Inner", "Plain"):
             ks = F.own_cache_keys(self.fam, name, direction)
             keys.append("None" if ks is None else "Some [" + "; ".join(map(str, ks)) + "]")
-        return (f"({HIER}, [0; 1; 2; 3; 4; 5], [" + "; ".join(coq_op(o) for o in mops) + "], (["
-                + "; ".join(coq_tag(t, self.spec.get("base_dialect")) for t in mouts) + "], [" + "; ".join(keys) + "]))")
+        base = self.spec.get("base_dialect")
+        nosup = [str(CID[n]) for n, c in self.spec["classes"].items()
+                 if c.get("config") is not None and "dialect" not in c["config"].get("flags", ["dialect"])]
+        outs = "; ".join("[" + "; ".join(coq_tag(t, base) for t in o) + "]" for o in mouts)
+        return (f"({HIER}, [{'; '.join(nosup)}], [0; 1; 2; 3; 4; 5], [" + "; ".join(coq_op(o) for o in mops) + "], (["
+                + outs + "], [" + "; ".join(keys) + "]))")
 
 
 def classify_history_failure(hr: HistoryRun, mm: dict) -> dict:
@@ -670,8 +693,8 @@ def history_part(ctx: vlib.Ctx, n_hist=None, tag=""):
                     ctx.sample({"history": [o[:4] for o in ops], "dialects": spec["dialects"]})
         finally:
             hr.close()
-    bad, log = vlib.coq_bad_idx("c13_cache" + tag, "DialectCache", "", "Open Scope nat_scope.\n", cases,
-                                "cache_case_ok", "cache_case", shard=250, needs=["theories/DialectCache.vo"])
+    bad, log = vlib.coq_bad_idx("c13_cache" + tag, "DialectCache DialectDeep", "", "Open Scope nat_scope.\n", cases,
+                                "deep_case_ok", "deep_case", shard=250, needs=["theories/DialectDeep.vo"])
     name = "cache-state-machine-vs-real-class-families" + tag
     if bad is None:
         ctx.correspondence(name, len(cases), -1, log)
